@@ -55,7 +55,9 @@ func ForLookup(addr string) (string, error) {
 	// Lower-casing can produce a sequence that is not in NFC anymore
 	// (e.g. "J\u030C" => "j\u030C", which composes to U+01F0), normalize
 	// again so the result is a fixed point of ForLookup.
-	mbox = norm.NFC.String(strings.ToLower(norm.NFC.String(mbox)))
+	// It is done on the decomposed form for the same reason as in
+	// dns.ForLookup: U+0130 is the capital spelling of "i\u0307", not of "i".
+	mbox = norm.NFC.String(strings.ToLower(norm.NFD.String(mbox)))
 
 	if domain == "" {
 		return mbox, nil
@@ -86,7 +88,7 @@ func CleanDomain(addr string) (string, error) {
 	}
 	// Same as dns.ForLookup: lower case form of the composed string is not
 	// necessarily composed.
-	uDomain = norm.NFC.String(strings.ToLower(norm.NFC.String(uDomain)))
+	uDomain = norm.NFC.String(strings.ToLower(norm.NFD.String(uDomain)))
 
 	if domain == "" {
 		return mbox, nil
